@@ -10,14 +10,9 @@ CONSTANTS
  Concurrent = FALSE
  Dev = {}
  Orders = "all"
- PlanMax = 0
- MaxHist = 0
-VIEW view
-INVARIANT Atomic
-INVARIANT LocksResolved
-INVARIANT PrimaryDecides
-INVARIANT SuccessIsVisible
-INVARIANT FailedStaysOut
-INVARIANT PrimaryFirst
-PROPERTY Final
+ PlanMax = 14
+ MaxHist = 60
+INVARIANT EmitHist
+ACTION_CONSTRAINT GenStop
+ACTION_CONSTRAINT GenCanon
 CHECK_DEADLOCK FALSE
